@@ -50,14 +50,14 @@ def run(ctx):
         plan = [(2, None, 700), (3, "sim", 300)]
         flavors = ["oid/oid", "path/oidf", "oidf/path"]
     else:
-        plan = [(1, None, None), (2, None, None), (3, None, 20000), (4, "sim", 3000)]
+        plan = [(1, None, None), (2, None, None), (3, None, 5000), (4, "sim", 2000)]
         flavors = ["oid/oid", "path/oidf", "oidf/path", "path/path"]
     exhaustive = True
     for nops, mode, limit in plan:
         for side in (1, 2):
             name = "out_%d_s%d" % (nops, side)
             if mode == "sim":
-                cases = sc.generate(ctx, name, [side], nops, GAPS, "out", simulate=(30, ctx.seed + side))
+                cases = sc.generate(ctx, name, [side], nops, GAPS, "out", filt="clean", simulate=(30, ctx.seed + side))
                 exhaustive = False
             else:
                 cases = sc.generate(ctx, name, [side], nops, GAPS, "out")
